@@ -18,7 +18,9 @@ Reference semantics (rows are Python list OBJECTS):
     tuple write `a[0, j] = v` replaces it by an updated writable copy (the snapshot object held elsewhere keeps its values);
   * the matrix is compared with the reference after EVERY operation, not only at the end;
   * a secret index outside the array raises IndexError wherever it is used outside a not-taken branch, however often and
-    wherever the same index object was used before.
+    wherever the same index object was used before;
+  * a row built outside the matrix (["newrow", name, values], any length) stored with `a[i] = row` replaces row i and no
+    other element, whatever its length (lists of lists may be ragged).
 """
 import sys, os, json, traceback
 sys.path.insert(0, os.path.dirname(os.path.abspath(__file__)))
@@ -45,16 +47,7 @@ def secrets(x):
     elif isinstance(x, LinComb): yield x
 
 
-def norm(op):
-    """histories written before index objects were introduced: (secret?, i) pairs"""
-    k = op[0]
-    sp = lambda s, i: ["s", i] if s else ["p", i]
-    if k == "row" and isinstance(op[2], bool): return ["row", op[1], sp(op[2], op[3])]
-    if k == "set1" and isinstance(op[2], bool): return ["set1", op[1], sp(op[2], op[3]), op[4]]
-    if k == "set2" and isinstance(op[1], bool): return ["set2", sp(op[1], op[2]), sp(op[3], op[4]), op[5]]
-    if k == "setrow" and isinstance(op[1], bool): return ["setrow", sp(op[1], op[2]), op[3]]
-    if k == "get2" and isinstance(op[2], bool): return ["get2", op[1], sp(op[2], op[3]), sp(op[4], op[5])]
-    return op
+from a2enc import norm
 
 
 class Real:
@@ -83,6 +76,7 @@ class Real:
         elif k == "set2": m[ix(op[1]), ix(op[2])] = op[3]
         elif k == "setrow": m[ix(op[1])] = v[op[2]]
         elif k == "gather": self.m = Array([m[ix(sp)] for sp in op[1]])
+        elif k == "newrow": v[op[1]] = Array(list(op[2]))
         else: raise ValueError("op " + k)
 
 
@@ -162,7 +156,17 @@ class Ref:
                 sec, i = self.ix(sp, nr)
                 rows.append(Row.snapshot(ref[i]) if sec else ref[i])
             self.ref = rows
+        elif k == "newrow":
+            v[op[1]] = ("array", Row(op[2]))          # a row built outside the matrix, of any length
         else: raise ValueError("op " + k)
+
+
+def lc_strings(real, p):
+    """wire expressions of the matrix and of every variable (S level), as the model driver prints them"""
+    d = {"matrix": W.canon.val_str(real.m, p, W.CLASSES)}
+    for k, v in real.vars.items():
+        d[k] = W.canon.val_str(v, p, W.CLASSES)
+    return d
 
 
 def main():
@@ -174,12 +178,18 @@ def main():
             p = W.DEFAULT_P
             real = Real(h); ref = Ref(h)
             status = "ok"; refstatus = "ok"; at = None
-            for n, op in enumerate(h["ops"]):
-                op = norm(op)
+            # for the comparison with the Lean model: the matrix after every completed operation of the REAL run and the
+            # numbers of wires / constraints at that point (a failing operation is cut off: the model reports the state
+            # before it)
+            trace = []; mark = (len(B.pubvals), len(B.privvals), len(B.constraints)); rat = None
+            ops = [norm(op) for op in h["ops"]]
+            n = -1
+            for n, op in enumerate(ops):
                 try:
                     real.do(op)
+                    trace.append(plain(real.m)); mark = (len(B.pubvals), len(B.privvals), len(B.constraints))
                 except Exception as e:
-                    status = type(e).__name__
+                    status = type(e).__name__; rat = n
                 try:
                     ref.do(op)
                 except Exception as e:
@@ -190,11 +200,26 @@ def main():
                 if plain(real.m) != ref.ref:            # compared after every step: `at` is the first operation after which they differ
                     at = n
                     break
+            snap = {"m": plain(real.m), "vars": {k: plain(v) for k, v in real.vars.items()}}
+            rstatus = status
+            if status == "ok" and at is not None:
+                # the reference stopped (or differs); the real run goes on alone so that the model sees the whole history
+                for n2 in range(n + 1, len(ops)):
+                    try:
+                        real.do(ops[n2])
+                        trace.append(plain(real.m)); mark = (len(B.pubvals), len(B.privvals), len(B.constraints))
+                    except Exception as e:
+                        rstatus = type(e).__name__; rat = n2
+                        break
             unsat = [i for i, (a, b, c) in enumerate(B.constraints) if (W.ev(a, p) * W.ev(b, p) - W.ev(c, p)) % p != 0]
             incoh = [k for k, x in list(real.vars.items()) + [("matrix", real.m)] if any((s.value - W.ev(s.lc, p)) % p for s in secrets(x))]
-            out = {"status": status, "refstatus": refstatus, "at": at, "m": plain(real.m), "ref": ref.ref,
-                   "vars": {k: plain(v) for k, v in real.vars.items()}, "rvars": {k: v[1] for k, v in ref.vars.items()},
-                   "unsat": unsat[:3], "incoh": incoh[:3]}
+            lcs = lc_strings(real, p)
+            rvars = {k: plain(v) for k, v in real.vars.items()}
+            del B.pubvals[mark[0]:]; del B.privvals[mark[1]:]; del B.constraints[mark[2]:]
+            out = {"status": status, "refstatus": refstatus, "at": at, "m": snap["m"], "ref": ref.ref,
+                   "vars": snap["vars"], "rvars": {k: v[1] for k, v in ref.vars.items()},
+                   "unsat": unsat[:3], "incoh": incoh[:3],
+                   "real": {"status": rstatus, "at": rat, "trace": trace, "vars": rvars, "lcs": lcs, "state": W.state_str(p)}}
             res = f"{f[1]}|" + json.dumps(out)
         except BaseException as e:
             if isinstance(e, (KeyboardInterrupt, SystemExit)): raise
